@@ -12,6 +12,12 @@ mirrors the Rust expression tree.  The meaning of the operators Lean lacks is in
 lean/Chess/Model/RustSem.lean.  lean/Chess/Lemmas/FnsEquiv.lean proves every generated definition
 equal to the hand-written model's.
 
+Also in the subset: `char` / `&str` literals (escapes decoded; `b'x'` is a `u8`), `match` on a `char`
+(printed as a chain of `==`), `let x = match … { …, _ => return e };` (the rest of the body becomes a local
+function of `x`), the ASCII methods of `char`, array literals, `assert!(c);` (`RustSem.assert`), and the
+compile-time tables of EXTERN_FILES (`zobrist::STATE`, `zobrist::PIECE`), which become PARAMETERS of the
+generated function and of its callers (type read from the declaration, value not).
+
 Anything outside the subset raises TranslateError `translate:<file>.<fn>: ...` and the run
 fails (exit 2) without writing the output: nothing is guessed or defaulted.
 """
@@ -331,6 +337,55 @@ ASSIGN_OPS = ["=", "+=", "-=", "*=", "/=", "%=", "^=", "&=", "|=", "<<=", ">>="]
 PRIMS = INT_SUFFIXES + ["bool", "char", "str", "f32", "f64"]
 
 
+def unescape(body, err, byte):
+    """the scalar values of the body of a Rust char / string literal (escapes decoded)"""
+    out, i, n = [], 0, len(body)
+    simple = {"n": 10, "r": 13, "t": 9, "\\": 92, "0": 0, "'": 39, '"': 34}
+    while i < n:
+        c = body[i]
+        if c != "\\":
+            if byte and ord(c) > 127:
+                err("non-ASCII character in a byte literal")
+            out.append(ord(c))
+            i += 1
+            continue
+        if i + 1 >= n:
+            err("dangling backslash in a literal")
+        d = body[i + 1]
+        if d in simple:
+            out.append(simple[d])
+            i += 2
+        elif d == "x":
+            h = body[i + 2:i + 4]
+            if len(h) != 2 or any(x not in "0123456789abcdefABCDEF" for x in h):
+                err("bad \\x escape")
+            v = int(h, 16)
+            if v > 127 and not byte:
+                err("\\x escape above 7F in a char/str literal (rustc rejects it)")
+            out.append(v)
+            i += 4
+        elif d == "u" and not byte:
+            k = body.find("}", i)
+            h = body[i + 3:k].replace("_", "") if body[i + 2:i + 3] == "{" and k > 0 else ""
+            if not (1 <= len(h) <= 6) or any(x not in "0123456789abcdefABCDEF" for x in h):
+                err("bad \\u{…} escape")
+            v = int(h, 16)
+            if v > 0x10FFFF or 0xD800 <= v <= 0xDFFF:
+                err("\\u{…} escape is not a Unicode scalar value")
+            out.append(v)
+            i = k + 1
+        else:
+            err(f"escape \\{d} in a literal is not supported")
+    return out
+
+
+def lean_char(cp):
+    ch = chr(cp)
+    if (32 <= cp < 127 and ch not in "'\\") or (cp >= 0xA1 and ch.isprintable()):
+        return f"'{ch}'"
+    return f"(Char.ofNat {cp})"
+
+
 class Parser:
     def __init__(self, toks, lo, hi, where):
         self.t, self.i, self.hi, self.where = toks, lo, hi, where
@@ -436,6 +491,26 @@ class Parser:
             return ("named", segs[-1], gen)
         self.err("unsupported type syntax")
 
+    def char_token(self, tk):
+        """(is a byte literal, scalar value) of a `char` token"""
+        byte = tk.v.startswith("b")
+        cps = unescape(tk.v[(2 if byte else 1):-1], self.err, byte)
+        if len(cps) != 1:
+            self.err(f"char literal {tk.v} does not hold exactly one character")
+        return byte, cps[0]
+
+    def str_token(self, tk):
+        """the scalar values of a `str` token (plain or raw; byte strings are refused)"""
+        v = tk.v
+        if v.startswith("b"):
+            self.err("byte string literals are not supported")
+        if v.startswith("r"):
+            h = len(v) - len(v[1:].lstrip("#")) - 1
+            return [ord(c) for c in v[2 + h:len(v) - 1 - h]]
+        if "\\\n" in v:
+            self.err("line continuation inside a string literal is not supported")
+        return unescape(v[1:-1], self.err, False)
+
     # -- patterns
     def parse_pattern(self):
         alts = [self.parse_pattern1()]
@@ -455,7 +530,17 @@ class Parser:
             return ("plit", -self.t[self.i - 1].v, self.t[self.i - 1].extra)
         if tk.k == "int":
             self.i += 1
+            if self.at_p("..=") or self.at_p(".."):
+                self.err("range patterns are not supported")
             return ("plit", tk.v, tk.extra)
+        if tk.k == "char":
+            self.i += 1
+            byte, cp = self.char_token(tk)
+            if self.at_p("..=") or self.at_p(".."):
+                self.err("range patterns are not supported")
+            return ("plit", cp, "u8") if byte else ("pchar", cp)
+        if tk.k == "str":
+            self.err("string literal patterns are not supported")
         if tk.k == "p" and tk.v == "(":
             self.i += 1
             els = []
@@ -709,8 +794,17 @@ class Parser:
         if tk.k == "int":
             self.i += 1
             return ("lit", tk.v, tk.extra, tk.line)
-        if tk.k in ("float", "str", "char"):
-            self.err(f"{tk.k} literals are not supported")
+        if tk.k == "float":
+            self.err("float literals are not supported")
+        if tk.k == "char":
+            self.i += 1
+            byte, cps = self.char_token(tk)
+            if byte:
+                return ("lit", cps, "u8", tk.line)
+            return ("char", cps, tk.line)
+        if tk.k == "str":
+            self.i += 1
+            return ("str", self.str_token(tk), tk.line)
         if tk.k == "p" and tk.v == "(":
             self.i += 1
             els, trailing = [], False
@@ -726,6 +820,19 @@ class Parser:
             return ("tuple", els, tk.line)
         if tk.k == "p" and tk.v == "{":
             return self.parse_block()
+        if tk.k == "p" and tk.v == "[":
+            self.i += 1
+            els = []
+            while not self.at_p("]"):
+                els.append(self.parse_expr())
+                if self.at_p(";"):
+                    self.err("array repeat expressions `[x; n]` are not supported")
+                if not self.eat_p(","):
+                    break
+            self.need_p("]")
+            if not els:
+                self.err("empty array literals are not supported")
+            return ("array", els, tk.line)
         if tk.k == "p" and tk.v in ("|", "||"):
             self.i += 1
             params = []
@@ -809,7 +916,7 @@ INT_INFO = {  # name -> (bits, signed, Lean type)
     "u32": (32, False, "UInt32"), "i32": (32, True, "Int32"), "u64": (64, False, "UInt64"), "i64": (64, True, "Int64"),
     "usize": (64, False, "RustSem.Usize"),
 }
-BOOL, UNIT = ("bool",), ("unit",)
+BOOL, UNIT, CHAR, STR = ("bool",), ("unit",), ("char",), ("str",)
 LEAN_KW = {
     "end", "from", "at", "with", "do", "then", "else", "if", "fun", "let", "have", "show", "match", "open", "in",
     "instance", "structure", "class", "def", "theorem", "where", "deriving", "namespace", "section", "variable",
@@ -851,11 +958,17 @@ FILES = ["chess/gamestate.rs", "chess/position.rs", "chess/piece.rs", "chess/mov
          "chess/scores.rs", "search.rs"]
 
 
+# modules whose `const` tables are computed at compile time from a binary file: a generated function that
+# reads `<module>::<NAME>` takes the table as a parameter (type read from the declaration, value not)
+EXTERN_FILES = ["chess/zobrist.rs"]
+
+
 class Translator:
     def __init__(self):
         self.files = {}
         for rel in FILES:
             self.files[rel] = SourceFile(rel)
+        self.extern_files = {rel: SourceFile(rel) for rel in EXTERN_FILES}
         self.out = []          # (key, lean text) in dependency order
         self.state = {}        # key -> "busy" | result
         self.adts = {}         # name -> parsed declaration
@@ -882,6 +995,27 @@ class Translator:
         hits = [f for f in self.files.values() if (owner, name) in f.consts]
         return hits[0] if len(hits) == 1 else None
 
+    def find_extern(self, module, name, where):
+        """`module::NAME` declared `const NAME: <array type> = …` in an EXTERN_FILES module ->
+        (NAME, type, note) or None"""
+        for rel, f in self.extern_files.items():
+            if os.path.splitext(os.path.basename(rel))[0] != module or (None, name) not in f.consts:
+                continue
+            i = f.consts[(None, name)]
+            w = f"{rel}.{name}"
+            p = Parser(f.toks, i + 2, len(f.toks) - 1, w)
+            p.need_p(":")
+            j = p.i
+            ty = self.resolve_type(p.parse_type(), None, w)
+            text = " ".join(self.tok_text(x) for x in f.toks[j:p.i])
+            p.need_p("=")
+            if ty[0] != "array":
+                raise TranslateError(f"translate:{where}: external constant `{module}::{name}` is not an array "
+                                     f"(only tables are taken as parameters)")
+            return name, ty, (f"`{module}::{name}` (`{rel}:{f.toks[i].line}`, `{text}`, computed at compile time) "
+                              f"is the parameter `{name}`")
+        return None
+
     # -- declarations of structs / enums / aliases
     def resolve_type(self, ty, self_name, where):
         k = ty[0]
@@ -899,6 +1033,10 @@ class Translator:
                 return ("int", name)
             if name == "bool" and not gen:
                 return BOOL
+            if name == "char" and not gen:
+                return CHAR
+            if name == "str" and not gen:
+                return STR       # only behind `&` (checked by rustc); `&str` is an immutable string value
             if name in PRIMS:
                 raise TranslateError(f"translate:{where}: type `{name}` is not supported")
             if name == "Self":
@@ -1090,6 +1228,10 @@ class Translator:
             return "Bool"
         if k == "unit":
             return "Unit"
+        if k == "char":
+            return "Char"
+        if k == "str":
+            return "String"
         if k == "adt":
             return t[1]
         if k == "option":
@@ -1164,6 +1306,7 @@ class Translator:
         fn = Fn()
         fn.owner, fn.name, fn.where, fn.file, fn.line = owner, name, where, f.rel, t[i].line
         fn.params, fn.self_kind, fn.ret, fn.body = params, self_kind, ret, body
+        fn.externs = []
         if self_kind and owner is None:
             raise TranslateError(f"translate:{where}: `self` outside an impl")
         # the Rust text of the signature, for the doc comment
@@ -1222,6 +1365,11 @@ class Translator:
             note = ""
         notes = "".join(f"\n{n}" for n in cx.notes)
         lname = self.lean_fn_name(owner, name)
+        fn.externs = list(cx.externs)
+        for xn, xt in fn.externs:
+            if xn in env:
+                raise TranslateError(f"translate:{fn.where}: line {fn.line}: the external table `{xn}` has the name of a parameter")
+        binders = [f"({xn} : {self.lean_ty(xt)})" for xn, xt in fn.externs] + binders
         text = (f"/-- `{fn.file}:{fn.line}` `{fn.sig}`{note}{notes} -/\n"
                 f"def {lname} {' '.join(binders)} : {ret_lean} :=\n  " + ind("\n".join(lines), 2))
         self.out.append((key, text))
@@ -1256,6 +1404,8 @@ class Translator:
         except NeedType:
             raise TranslateError(f"translate:{where}: cannot determine the type of an integer literal")
         cx.same(ety, ty, t[i].line, "constant")
+        if cx.externs:
+            raise TranslateError(f"translate:{where}: line {t[i].line}: a constant that reads an external table is not supported")
         lname = self.lean_fn_name(owner, name)
         self.out.append((key, f"/-- `{f.rel}:{t[i].line}` `const {name}` -/\ndef {lname} : {self.lean_ty(ty)} :=\n  {ind(code, 2)}"))
         self.summary.append((lname, f"{f.rel}:{t[i].line}"))
@@ -1277,6 +1427,7 @@ class Ctx:
     def __init__(self, tr, fn, owner):
         self.tr, self.fn, self.owner = tr, fn, owner
         self.notes = []
+        self.externs = []      # (name, type) of the external tables read, in order of first use
 
     def err(self, line, msg):
         raise TranslateError(f"translate:{self.fn.where}: line {line}: {msg}")
@@ -1353,6 +1504,23 @@ class Ctx:
     def e_bool(self, e, env, exp):
         return ("true" if e[1] else "false"), BOOL
 
+    def e_char(self, e, env, exp):
+        return lean_char(e[1]), CHAR
+
+    def e_str(self, e, env, exp):
+        out = []
+        for cp in e[1]:
+            ch = chr(cp)
+            if ch in '"\\':
+                out.append("\\" + ch)
+            elif 32 <= cp < 127 or (cp >= 0xA1 and ch.isprintable()):
+                out.append(ch)
+            elif cp < 256:
+                out.append(f"\\x{cp:02x}")
+            else:
+                self.err(e[2], f"string literal with the unprintable character U+{cp:04X} is not supported")
+        return '"' + "".join(out) + '"', STR
+
     def e_un(self, e, env, exp):
         _, op, x, line = e
         if op in ("&", "*"):
@@ -1428,7 +1596,7 @@ class Ctx:
             if op in ("==", "!="):
                 self.need_eq(tl, line)
                 return f"({cl} {op} {cr})", BOOL
-            if not is_int(tl):
+            if not is_int(tl) and tl != CHAR:
                 self.err(line, f"`{op}` on {self.show(tl)} is not supported")
             lop = {"<": "<", ">": ">", "<=": "≤", ">=": "≥"}[op]
             return f"(decide ({cl} {lop} {cr}))", BOOL
@@ -1468,6 +1636,14 @@ class Ctx:
     def e_cast(self, e, env, exp):
         _, x, ty, line = e
         target = self.tr.resolve_type(ty, self.owner, self.fn.where)
+        if target == CHAR:
+            # rustc accepts `as char` only from `u8` (and from `char`)
+            c, t = self.expr(x, env, ("int", "u8"))
+            if t == CHAR:
+                return c, t
+            if t != ("int", "u8"):
+                self.err(line, f"cast from {self.show(t)} to char (rustc accepts only u8)")
+            return f"(RustSem.u8ToChar {c})", CHAR
         if not is_int(target):
             self.err(line, f"cast to {self.show(target)} is not supported")
         try:
@@ -1481,6 +1657,8 @@ class Ctx:
             return f"(RustSem.cast {c} : {lt})", target
         if t == BOOL:
             return f"(if {c} then (1 : {lt}) else (0 : {lt}))", target
+        if t == CHAR:
+            return f"(RustSem.charCast {c} : {lt})", target
         if t[0] == "adt":
             d = self.tr.need_adt(t[1])
             if d["kind"] == "enum" and d["fieldless"]:
@@ -1513,6 +1691,15 @@ class Ctx:
             self.err(line, f"unknown name `{n}`")
         owner = self.type_name(segs[-2], line)
         if owner is None:
+            x = self.tr.find_extern(segs[-2], segs[-1], self.fn.where)
+            if x is not None:
+                xn, xt, xnote = x
+                if xn in env:
+                    self.err(line, f"the external table `{xn}` has the name of a local variable")
+                if (xn, xt) not in self.externs:
+                    self.externs.append((xn, xt))
+                self.note(xnote)
+                return xn, xt
             # module path to a constant:  scores::ENDGAME_THRESHOLD
             if self.tr.find_const(None, segs[-1]) is not None:
                 return self.tr.need_const(None, segs[-1], self.fn.where)
@@ -1554,7 +1741,12 @@ class Ctx:
             self.err(line, f"`{name}` called with the wrong receiver form")
         if len(args) != len(sig.params):
             self.err(line, f"`{name}` expects {len(sig.params)} argument(s)")
-        codes = [] if recv is None else [recv]
+        for x in sig.externs:
+            if x[0] in env:
+                self.err(line, f"the external table `{x[0]}` (read by `{name}`) has the name of a local variable")
+            if x not in self.externs:
+                self.externs.append(x)
+        codes = [x[0] for x in sig.externs] + ([] if recv is None else [recv])
         for a, (pn, pt) in zip(args, sig.params):
             c, t = self.expr(a, env, pt)
             self.same(t, pt, line, f"argument `{pn}` of `{name}`")
@@ -1662,6 +1854,17 @@ class Ctx:
                 self.note("`get_unchecked` out of bounds is undefined in Rust; `RustSem.index` returns `default` there")
                 return f"(RustSem.index {c} {ci})", t[1]
             self.err(line, f"method `{name}` of an array is not supported")
+        if t == CHAR:
+            preds = {"is_ascii_lowercase": "isAsciiLowercase", "is_ascii_uppercase": "isAsciiUppercase",
+                     "is_ascii_digit": "isAsciiDigit", "is_ascii_alphabetic": "isAsciiAlphabetic", "is_ascii": "isAscii"}
+            convs = {"to_ascii_lowercase": "toAsciiLowercase", "to_ascii_uppercase": "toAsciiUppercase"}
+            if name in preds and not args:
+                return f"(RustSem.{preds[name]} {c})", BOOL
+            if name in convs and not args:
+                return f"(RustSem.{convs[name]} {c})", CHAR
+            if name == "clone" and not args:
+                return c, t
+            self.err(line, f"method `{name}` of char is not supported")
         if is_int(t):
             if name in ("wrapping_add", "wrapping_sub", "wrapping_mul") and len(args) == 1:
                 op = {"wrapping_add": "+", "wrapping_sub": "-", "wrapping_mul": "*"}[name]
@@ -1717,47 +1920,92 @@ class Ctx:
             self.err(line, "`if let` without `else` used as a value")
         return self.e_match(("match", scrut, [(pat, then), (("pwild",), els)], line), env, exp)
 
-    def e_match(self, e, env, exp):
+    @staticmethod
+    def ret_arm(body):
+        """the `return …` node if a match arm is `return e`, `{ return e }` or `{ return e; }`"""
+        while body[0] == "paren":
+            body = body[1]
+        if body[0] == "return":
+            return body
+        if body[0] == "block":
+            if not body[1] and body[2] is not None:
+                return Ctx.ret_arm(body[2])
+            if len(body[1]) == 1 and body[2] is None and body[1][0][0] == "expr":
+                return Ctx.ret_arm(body[1][0][1])
+        return None
+
+    def has_ret_arm(self, e):
+        while e[0] == "paren":
+            e = e[1]
+        return e[0] == "match" and any(self.ret_arm(b) is not None for _, b in e[2])
+
+    def arm(self, body, env, ty, cont):
+        """one match arm -> (code, type of the arm's VALUE or None for an arm that returns).
+        `cont` is None (an ordinary match) or the Lean name of the continuation that receives the
+        arm's value ("" for the identity, when the match is the function's last expression); only
+        then may an arm be `return e`, and its code is `e` itself."""
+        r = self.ret_arm(body) if cont is not None else None
+        if r is not None:
+            if r[1] is None:
+                self.err(r[-1], "`return;` in a function that returns a value")
+            c, t = self.expr(r[1], env, self.fn.ret)
+            self.same(t, self.fn.ret, r[-1], "returned value")
+            return c, None
+        c, t = self.expr(body, env, ty)
+        return (f"({cont} {c})" if cont else c), t
+
+    def e_match(self, e, env, exp, cont=None):
         _, scrut, arms, line = e
         cs, ts = self.expr(scrut, env, None)
-        if is_int(ts):
-            return self.int_match(cs, ts, arms, env, exp, line)
+        if is_int(ts) or ts == CHAR:
+            return self.int_match(cs, ts, arms, env, exp, line, cont)
         out, ty = [], exp
         pend = []
         for pat, body in arms:
             env2 = dict(env)
             pc = self.pattern(pat, ts, env2, line, top=True)
             try:
-                cb, tb = self.expr(body, env2, ty)
+                cb, tb = self.arm(body, env2, ty, cont)
             except NeedType:
                 pend.append((pc, body, env2))
                 out.append(None)
                 continue
-            if ty is None:
-                ty = tb
-            self.same(tb, ty, line, "match arms")
+            if tb is not None:
+                if ty is None:
+                    ty = tb
+                self.same(tb, ty, line, "match arms")
             out.append((pc, cb))
         for k, o in enumerate(out):
             if o is None:
                 pc, body, env2 = pend.pop(0)
                 if ty is None:
                     raise NeedType()
-                cb, tb = self.expr(body, env2, ty)
+                cb, tb = self.arm(body, env2, ty, cont)
                 self.same(tb, ty, line, "match arms")
                 out[k] = (pc, cb)
+        if ty is None:
+            self.err(line, "every arm of this match returns; its value has no type")
         text = f"(match {cs} with" + "".join(f"\n | {pc} => {ind(cb, 3)}" for pc, cb in out) + ")"
         return text, ty
 
-    def int_match(self, cs, ts, arms, env, exp, line):
-        """match on an integer: printed as a chain of `if … == literal`"""
+    def int_match(self, cs, ts, arms, env, exp, line, cont=None):
+        """match on an integer or a char: printed as a chain of `if … == literal`"""
         ty, chain, default = exp, [], None
+        want = "pchar" if ts == CHAR else "plit"
+        what = "a char" if ts == CHAR else "an integer"
         for pat, body in arms:
             alts = pat[1] if pat[0] == "por" else [pat]
             if default is not None:
                 self.err(line, "match arm after a catch-all arm")
-            if all(a[0] == "plit" for a in alts):
-                conds = [f"(m__ == {self.lit(a[1], a[2] or ts[1], line)[0]})" for a in alts]
-                cb, tb = self.expr(body, env, ty)
+            if all(a[0] == want for a in alts):
+                if ts == CHAR:
+                    conds = [f"(m__ == {lean_char(a[1])})" for a in alts]
+                else:
+                    for a in alts:
+                        if a[2] is not None and a[2] != ts[1]:
+                            self.err(line, f"literal pattern of type {a[2]} in a match on {ts[1]}")
+                    conds = [f"(m__ == {self.lit(a[1], ts[1], line)[0]})" for a in alts]
+                cb, tb = self.arm(body, env, ty, cont)
                 chain.append((" || ".join(conds), cb))
             elif len(alts) == 1 and alts[0][0] in ("pwild", "pbind"):
                 env2 = dict(env)
@@ -1765,19 +2013,22 @@ class Ctx:
                 if alts[0][0] == "pbind":
                     env2[alts[0][1]] = ts
                     pre = f"let {mangle(alts[0][1])} := m__; "
-                cb, tb = self.expr(body, env2, ty)
+                cb, tb = self.arm(body, env2, ty, cont)
                 default = pre + cb
             else:
-                self.err(line, "unsupported pattern in a match on an integer")
-            if ty is None:
-                ty = tb
-            self.same(tb, ty, line, "match arms")
+                self.err(line, f"unsupported pattern in a match on {what}")
+            if tb is not None:
+                if ty is None:
+                    ty = tb
+                self.same(tb, ty, line, "match arms")
         if default is None:
-            self.err(line, "match on an integer needs a catch-all arm")
+            self.err(line, f"match on {what} needs a catch-all arm")
+        if ty is None:
+            self.err(line, "every arm of this match returns; its value has no type")
         text = f"(let m__ := {cs}; "
         for c, b in chain:
-            text += f"if {c} then {b}\n else "
-        return text + f"({default}))", ty
+            text += f"if {c} then {ind(b, 2)}\n else "
+        return text + f"({ind(default, 2)}))", ty
 
     def pattern(self, pat, ty, env, line, top=False):
         k = pat[0]
@@ -1880,6 +2131,26 @@ class Ctx:
             ts.append(t)
         return "(" + ", ".join(cs) + ")", ("tuple", ts)
 
+    def e_array(self, e, env, exp):
+        _, els, line = e
+        want = exp[1] if exp is not None and exp[0] == "array" else None
+        cs, ty, todo = [None] * len(els), want, []
+        for k, x in enumerate(els):
+            try:
+                cs[k], t = self.expr(x, env, ty)
+            except NeedType:
+                todo.append(k)
+                continue
+            if ty is None:
+                ty = t
+            self.same(t, ty, line, "array elements")
+        if todo and ty is None:
+            raise NeedType()
+        for k in todo:
+            cs[k], t = self.expr(els[k], env, ty)
+            self.same(t, ty, line, "array elements")
+        return "#[" + ", ".join(cs) + "]", ("array", ty)
+
     def e_block(self, e, env, exp):
         lines, ty = self.stmts(e[1], e[2], dict(env), exp, False)
         if len(lines) == 1:
@@ -1963,6 +2234,31 @@ class Ctx:
                 if pat[0] not in ("pbind", "pwild"):
                     self.err(line, "only `let name = …` is supported")
                 want = self.tr.resolve_type(ty, self.owner, self.fn.where) if ty is not None else None
+                if self.has_ret_arm(val):
+                    # `let x = match s { p => v, …, q => return r };  rest`: the rest of the function becomes a
+                    # local function of `x`; an arm with a value passes it on, an arm that returns does not
+                    if not fn_level or final is not None:
+                        self.err(line, "`return` inside a nested block is not supported")
+                    m = val
+                    while m[0] == "paren":
+                        m = m[1]
+                    self.kcount = getattr(self, "kcount", 0) + 1
+                    k = f"k{self.kcount}__"
+                    try:
+                        c, t = self.e_match(m, env, want, cont=k)
+                    except NeedType:
+                        self.err(line, "cannot determine the integer type of this `let` (write its type)")
+                    if want is not None:
+                        self.same(t, want, line, "let")
+                    env2 = dict(env)
+                    if pat[0] == "pbind":
+                        env2[pat[1]] = t
+                    l2, t2 = self.stmts(rest, tail, env2, exp, True)
+                    arg = mangle(pat[1]) if pat[0] == "pbind" else "_"
+                    lines.append(f"let {k} : {self.tr.lean_ty(t)} → {self.tr.lean_ty(self.fn.ret)} := (fun {arg} =>\n  "
+                                 + ind(self.join_top(l2), 2) + ")")
+                    lines.append(c)
+                    return lines, t2
                 try:
                     c, t = self.expr(val, env, want)
                 except NeedType:
@@ -1988,6 +2284,20 @@ class Ctx:
                 if e[1] == "debug_assert":
                     self.note("`debug_assert!` omitted (no-op in the release profile)")
                     continue
+                if e[1] == "assert":
+                    if not fn_level or final is not None:
+                        self.err(line, "`assert!` is supported only as a statement of the body of a function that returns a value")
+                    body = list(e[2]) + [Tok("eof", None, line)]
+                    ap = Parser(body, 0, len(body) - 1, self.fn.where)
+                    cond = ap.parse_expr()
+                    if not (ap.done() or ap.at_p(",")):
+                        ap.err("cannot parse the condition of `assert!`")
+                    cc, ct = self.expr(cond, env, BOOL)
+                    self.same(ct, BOOL, line, "condition of `assert!`")
+                    self.note("a failed `assert!` panics in Rust; `RustSem.assert` returns `default` there")
+                    l2, t2 = self.stmts(rest, tail, env, exp, True)
+                    lines.append(f"(RustSem.assert {cc} ({self.join(l2)}))")
+                    return lines, t2
                 self.err(line, f"macro `{e[1]}!` is not supported")
             if e[0] == "return":
                 if not fn_level:
@@ -2051,6 +2361,11 @@ class Ctx:
             l2, t2 = self.stmts(tail[3][1], tail[3][2], dict(env), exp, True)
             self.same(t1, t2, tail[-1], "branches of `if`")
             c, t = f"(if {cc} then {self.join(l1)}\n else {self.join(l2)})", t1
+        elif fn_level and self.has_ret_arm(tail):
+            m = tail
+            while m[0] == "paren":
+                m = m[1]
+            c, t = self.e_match(m, env, self.fn.ret, cont="")
         else:
             c, t = self.expr(tail, env, exp)
         lines.append(c)
@@ -2133,10 +2448,11 @@ ROOT_FNS = [(f, o, n) for f, o, ns in [
         "white_queen_castling", "set_white_queen_castling_false", "set_white_queen_castling_true",
         "black_king_castling", "set_black_king_castling_false", "set_black_king_castling_true",
         "black_queen_castling", "set_black_queen_castling_false", "set_black_queen_castling_true",
-        "default"]),
-    ("chess/position.rs", "Position", ["new", "add", "as_usize", "row", "col", "new_unsafe"]),
+        "default", "hash"]),
+    ("chess/position.rs", "Position", ["new", "add", "as_usize", "row", "col", "new_unsafe", "new_assert", "add_unsafe"]),
     ("chess/piece.rs", "PieceType", ["material_value"]),
-    ("chess/piece.rs", "Piece", ["material_value", "as_index", "score"]),
+    ("chess/piece.rs", "Piece", ["material_value", "as_index", "score", "hash",
+                                 "as_char", "as_str_pgn", "as_char_ascii", "from_char_ascii"]),
     ("chess/move_struct.rs", "Move", ["is_tactical_move", "index_history"]),
     ("search.rs", None, ["move_score"]),
 ] for n in ns]
